@@ -1,4 +1,4 @@
-use super::allocator::{BlockAllocator, FileStateTracker};
+use super::allocator::{BlockAllocator, BlockStateTracker, FileStateTracker};
 use super::reader::Reader;
 use crate::wal::block::Block;
 #[cfg(target_os = "linux")]
@@ -150,7 +150,14 @@ impl Writer {
             // allocator's internal lock ensures unique block handout.
             let new_block = unsafe { self.allocator.alloc_block(need) }?;
             FileStateTracker::set_block_unlocked(block.id as usize);
-            let _ = self.reader.append_block_to_chain(&self.col, sealed);
+            if sealed.used > 0 {
+                let _ = self.reader.append_block_to_chain(&self.col, sealed);
+            } else {
+                // Nothing was ever stored in this block (its first write failed). Recovery
+                // does not see such a block, so it must not occupy a position in the
+                // reader chain either; there is nothing in it to consume.
+                BlockStateTracker::set_checkpointed_true(sealed.id as usize);
+            }
             debug_print!("[writer] appended sealed block to chain: col={}", self.col);
             debug_print!(
                 "[writer] switched to new block: col={}, new_block_id={}",
@@ -305,7 +312,12 @@ impl Writer {
                 let mut sealed = block.clone();
                 sealed.used = planning_offset;
                 sealed.mmap.flush()?;
-                let _ = self.reader.append_block_to_chain(&self.col, sealed);
+                if sealed.used > 0 {
+                    let _ = self.reader.append_block_to_chain(&self.col, sealed);
+                } else {
+                    // see `write`: an empty block takes no position in the reader chain
+                    BlockStateTracker::set_checkpointed_true(sealed.id as usize);
+                }
 
                 // Allocate new block
                 // SAFETY: We hold locks, so this writer has exclusive ownership
